@@ -283,8 +283,78 @@ def handlePLaws (f : List String) : String × String × String :=
     | _, _, _ => ("bad-input", "-", "-")
   | _ => ("bad-fields", "-", "-")
 
+/-! ### extension streams: RemoveTombstones, Clone / MergeContent -/
+
+/-- `C03.tomb`: fields zero sec nsec d | out total removed out2 total2 removed2 sec2 nsec2 after direct.
+Judge, from the doc text of `RemoveTombstones` ("removes LEFT ingesters older than given time limit; if
+time limit is zero, remove all LEFT ingesters", returns the LEFT entries kept and removed): nothing but
+expired tombstones disappears, every expired tombstone disappears, nothing appears or is altered, the
+counters count, a second pass removes nothing, and a later limit applied afterwards gives what it gives directly. -/
+def handleTomb (f : List String) : String × String × String :=
+  match f with
+  | [z, sec, nsec, d, out, total, removed, out2, total2, removed2, sec2, nsec2, after, direct] =>
+    match parseDesc d, sec.toInt?, nsec.toNat?, parseDesc out, sec2.toInt?, nsec2.toNat? with
+    | some dd, some s, some ns, some iout, some s2, some ns2 =>
+      let zero := z == "1"
+      let lim : Option Int := if zero then none else some (C03.limitOf s ns)
+      let lim2 : Option Int := some (C03.limitOf s2 ns2)
+      let m := C03.removeTombstones lim dd
+      let c1 := C03.tombCounts lim dd
+      let c2 := C03.tombCounts lim m
+      let model := [showD m, toString c1.1, toString c1.2, showD (C03.removeTombstones lim m), toString c2.1, toString c2.2,
+        showD (C03.removeTombstones lim2 m), showD (C03.removeTombstones lim2 dd)]
+      let impl := [out, total, removed, out2, total2, removed2, after, direct]
+      let diff := if model == impl then "-" else "model=" ++ " ".intercalate model
+      let expired (i : Inst) : Bool := zero || i.ts < s || (i.ts == s && ns > 0)
+      let later : Bool := !zero && (s2 > s || (s2 == s && ns2 ≥ ns))
+      let j : List String :=
+        (dd.filterMap fun e =>
+          if e.state != .LEFT then (if iout.contains e then none else some s!"live-entry-removed-or-altered:{e.id}")
+          else if expired e then (if iout.contains e then some s!"expired-tombstone-kept:{e.id}" else none)
+          else (if iout.contains e then none else some s!"tombstone-removed-before-limit:{e.id}")) ++
+        (iout.filterMap fun e => if dd.contains e then none else some s!"entry-from-nowhere-or-altered:{e.id}") ++
+        (if total != toString (iout.filter fun e => e.state == .LEFT).length then ["total-miscounted"] else []) ++
+        (if removed != toString (dd.length - iout.length) then ["removed-miscounted"] else []) ++
+        (if out2 != out || removed2 != "0" || total2 != total then ["gc-not-idempotent"] else []) ++
+        (if later && after != direct then ["gc-not-monotone-in-limit"] else [])
+      let tags := s!"gc={min c1.2 3} kept={min c1.1 3} zero={zero} ns={min ns 2} n={min dd.length 4}"
+      (diff, if j.isEmpty then "-" else ",".intercalate j, tags)
+    | _, _, _, _, _, _ => ("bad-input", "-", "-")
+  | _ => ("bad-fields", "-", "-")
+
+/-- `C03.clone`: fields cas now a b | clone content stO chO stC chC origAfterMerge origAfterMutation.
+Judge, from the doc text of `Clone` (a copy whose map is safe to modify) and `MergeContent` (the list of
+ingesters): the clone has the content of the original; MergeContent is its key set; merging into the
+clone gives the state and change that merging into the original gives; neither that merge nor adding /
+replacing / deleting entries of the clone reaches the original. -/
+def handleClone (f : List String) : String × String × String :=
+  match f with
+  | [cas, now, a, b, cl, content, stO, chO, stC, chC, origM, origX] =>
+    match parseDesc a, parseDesc b, now.toInt? with
+    | some da, some db, some now =>
+      let casB := cas == "1"
+      let m := C03.merge casB now (C03.clone da) db
+      let keys (d : Desc) : String := let l := C03.mergeContent (C03.sortById d); if l.isEmpty then "-" else ",".intercalate l
+      let model := [showD (C03.clone da), keys da, showD m.state, showChange m.change]
+      let diff := if model == [cl, content, stC, chC] then "-" else "model=" ++ " ".intercalate model
+      let akeys : String := match parseDesc cl with
+        | some c => let l := (C03.sortById c).map (·.id); if l.isEmpty then "-" else ",".intercalate l
+        | none => "?"
+      let j : List String :=
+        (if cl != a then ["clone-content-differs"] else []) ++
+        (if content != akeys then ["merge-content-not-the-key-set"] else []) ++
+        (if stC != stO || chC != chO then ["merge-into-clone-differs-from-merge-into-original"] else []) ++
+        (if origM != a then ["merge-into-clone-changed-original"] else []) ++
+        (if origX != a then ["clone-shares-map-with-original"] else [])
+      let tags := s!"clone cas={casB} chg={m.change.isSome} n={min da.length 4}x{min db.length 4}"
+      (diff, if j.isEmpty then "-" else ",".intercalate j, tags)
+    | _, _, _ => ("bad-input", "-", "-")
+  | _ => ("bad-fields", "-", "-")
+
 def handle (cmd : String) (f : List String) : String × String × String :=
   if cmd == "C03.merge" then handleMerge f
+  else if cmd == "C03.tomb" then handleTomb f
+  else if cmd == "C03.clone" then handleClone f
   else if cmd == "C03.laws" then handleLaws f
   else if cmd == "C03.pmerge" then handlePMerge f
   else if cmd == "C03.plaws" then handlePLaws f
